@@ -341,12 +341,29 @@ def _run(case, bump, counters, tmp):
     # ---------------- clause 4: reuse
     if case["reuse"] and "fonts" in case and not violations:
         try:
-            other = [build_ufo({"glyphs": copy.deepcopy(case["other"])}, case["lib"])]
-            if case["interp"]:
-                other = other + [build_ufo({"glyphs": perturbed_fixed(case["other"])}, case["lib"])
-                                 for _ in case["fonts"][1:]]
+            # the second font differs from the first in its vertical metrics too (filters may
+            # derive parameters from font info, e.g. the origin of a transformation)
+            oinfo = {"unitsPerEm": 1000, "familyName": "T", "styleName": "O", "xHeight": 460,
+                     "capHeight": 640, "ascender": 750, "descender": -250}
+
+            def build_other():
+                o = [build_ufo({"glyphs": copy.deepcopy(case["other"]), "info": oinfo}, case["lib"])]
+                if case["interp"]:
+                    o = o + [build_ufo({"glyphs": perturbed_fixed(case["other"]), "info": oinfo},
+                                       case["lib"]) for _ in case["fonts"][1:]]
+                return o
             try:
-                apply_once(case, filt, other, target, bump)      # history: A, then B ...
+                _bB, aB, retB, _ = apply_once(case, filt, build_other(), target, bump)   # A, then B
+                _bF, aF, retF, _ = apply_once(case, make_filter(case), build_other(), target, bump)
+                bump("reuse_second_font_compared")
+                if aB != aF:
+                    bad = [n for n in set(aB[0]) | set(aF[0]) if aB[0].get(n) != aF[0].get(n)]
+                    violations.append({"mech": "reused_filter_differs_from_fresh", "detail": {
+                        "filter": name, "on": "second font of the history", "glyphs": sorted(bad)[:6]}})
+                elif retB != retF:
+                    violations.append({"mech": "reused_filter_reports_differently", "detail": {
+                        "filter": name, "on": "second font of the history",
+                        "reused": sorted(retB), "fresh": sorted(retF)}})
             except Exception:  # noqa: BLE001
                 bump("reuse_other_font_raised")
             fonts2 = build_fonts(case, tmp)
